@@ -41,8 +41,15 @@ def run_impl(descr) -> Any:
     dom = list(range(1, n + 1))
     x = let(int, dom, name="x")
     shape = descr.get("shape", "entity")
+    if shape == "match":
+        # the same description written with the match API: entity_matching(_Row, items)(on=True) -- n solutions
+        from krrood.entity_query_language.match import entity_matching
+        _Row = _row_class()
+        items = [_Row(i, True) for i in dom]
     if descr["q"] == "the":
         try:
+            if shape == "match":
+                return [0, the(entity_matching(_Row, items)(on=True)).evaluate().i]
             q = the(entity(x, x >= 1)) if shape == "entity" else the(set_of([x], x >= 1))
             v = q.evaluate()
             if shape != "entity":
@@ -91,13 +98,39 @@ def run_impl(descr) -> Any:
             return [[-98], 98]
         return state[0]
     try:
-        ent = entity(x, x >= 1) if shape == "entity" else set_of([x], x >= 1)
+        if shape == "match":
+            ent = entity_matching(_Row, items)(on=True)
+        else:
+            ent = entity(x, x >= 1) if shape == "entity" else set_of([x], x >= 1)
         q = an(ent, quantification=c) if c is not None else an(ent)
         for r in q.evaluate():
-            rows.append(r if shape == "entity" else r[x])
+            rows.append(r.i if shape == "match" else (r if shape == "entity" else r[x]))
     except Exception as e:  # noqa
         exn = EXN.get(type(e).__name__, 99)
     return [rows, exn]
+
+
+_ROW = None
+
+
+def _row_class():
+    """a Symbol dataclass for the match API (entity_matching reads the fields from the symbol graph's class diagram, which is
+    built when the graph is created: the graph is re-created once after the class exists)"""
+    global _ROW
+    if _ROW is None:
+        import dataclasses
+        from krrood.entity_query_language.predicate import Symbol
+        from krrood.entity_query_language.symbol_graph import SymbolGraph
+
+        @dataclasses.dataclass(eq=False)
+        class _Row(Symbol):
+            i: int
+            on: bool = True
+
+        SymbolGraph().clear()
+        SymbolGraph()
+        _ROW = _Row
+    return _ROW
 
 
 class _Item:
@@ -192,6 +225,17 @@ for inner_kind in ("the", "atmost1"):
     out.append(res)
     del keep
     import gc; gc.collect()
+# a quantified sub-query referenced TWICE by the outer condition, with a falsy solution (0): its count is that of the
+# sub-query, whatever value the outer binding fixes (seeded C09-I: a bound but falsy solution was enumerated again and
+# recounted as 1)
+from krrood.entity_query_language.entity import and_
+for dom in ([0, 5], [3, 5], [0]):
+    for cname, c in (("AtLeast2", lambda: rq.AtLeast(2)), ("Exactly2", lambda: rq.Exactly(2)),
+                     ("Range23", lambda: rq.Range(rq.AtLeast(2), rq.AtMost(3))), ("AtMost2", lambda: rq.AtMost(2))):
+        y = let(int, dom, name="y")
+        inner = an(entity(y), quantification=c())
+        x = let(int, [0, 3, 5, 7], name="x")
+        out.append([ev(an(entity(x, and_(x >= inner, x <= inner))))])
 print(json.dumps(out))
 """
     r = subprocess.run([core.PY, "-c", code], env=core.IMPL_ENV, stdout=subprocess.PIPE, stderr=subprocess.PIPE, text=True,
@@ -202,8 +246,13 @@ print(json.dumps(out))
     return json.loads(last[-1])
 
 
+_LESS = "LessThanExpectedNumberOfSolutions"
 NESTED_EXPECTED = [["NoSolutionFound", [2], "MultipleSolutionFound", "MultipleSolutionFound"],
-                   [[], [2], "GreaterThanExpectedNumberOfSolutions", "GreaterThanExpectedNumberOfSolutions"]]
+                   [[], [2], "GreaterThanExpectedNumberOfSolutions", "GreaterThanExpectedNumberOfSolutions"],
+                   # sub-query over [0, 5] (two solutions) / [3, 5] (two) / [0] (one): AtLeast(2), Exactly(2), Range(2..3), AtMost(2)
+                   [[0, 5]], [[0, 5]], [[0, 5]], [[0, 5]],
+                   [[3, 5]], [[3, 5]], [[3, 5]], [[3, 5]],
+                   [_LESS], [_LESS], [_LESS], [[0]]]
 
 
 def _h(name: str) -> int:
@@ -239,6 +288,8 @@ def gen_cases(tier: str, seed: int) -> List[dict]:
     for d in out:
         if rng.chance(0.1):
             extra.append(dict(d, shape="setof"))
+        if rng.chance(0.1):
+            extra.append(dict(d, shape="match"))       # (seeded C09-J: the match branch of an() dropped quantification=)
         if d["q"] == "an" and d["k"] is not None and rng.chance(0.06):
             extra.append(dict(d, mode="lockstep"))
         if d.get("k") is None or (d["q"] == "an" and rng.chance(0.03)):
